@@ -63,7 +63,7 @@ func genResetRace(rng *mon.RNG) rrPlan {
 	}
 	p.initSize = int32(rng.PickInt(0, 0, 1, 64))
 	p.delayMax = rng.PickInt(0, 1, 3, 10)
-	p.fillers = rng.PickInt(0, 0, 0, 256, 1024, 4096)
+	p.fillers = rng.PickInt(0, 0, 0, 128, 512, 1500)
 	if p.fillers > 1000 {
 		p.rounds = rng.Range(4, 8)
 	}
